@@ -225,7 +225,16 @@ _PRE_FOR_RE = re.compile(r'scf\.for .*iter_args\(.*\) -> \(.*!accfg\.state')
 
 def has_prethreaded_loop(src: str) -> bool:
     """the named clause NoPreThreadedLoops on the INPUT: some scf.for already carries a state value"""
-    return any(_PRE_FOR_RE.search(l) for l in src.split("\n"))
+    lines = src.split("\n")
+    lo, hi = _f_span(lines)
+    return any(_PRE_FOR_RE.search(l) for l in lines[lo:hi])
+
+
+def _f_span(lines):
+    """line range of the body of @f (a module may hold other functions, which are not the program under test)"""
+    lo = next((i for i, l in enumerate(lines) if l.startswith("func.func @f(")), 0)
+    hi = next((i for i, l in enumerate(lines) if i > lo and "func.return" in l), len(lines))
+    return lo, hi
 
 
 def prethread_loops(src: str, rng: random.Random, nloops=2):
@@ -239,7 +248,8 @@ def prethread_loops(src: str, rng: random.Random, nloops=2):
     for _ in range(6):
         if done >= nloops:
             break
-        loops = [i for i, l in enumerate(lines) if _FOR_RE.match(l)]
+        lo_f, hi_f = _f_span(lines)
+        loops = [i for i, l in enumerate(lines) if lo_f < i < hi_f and _FOR_RE.match(l)]
         rng.shuffle(loops)
         for i in loops:
             ind, iv, lb, ub, st = _FOR_RE.match(lines[i]).groups()
@@ -258,7 +268,7 @@ def prethread_loops(src: str, rng: random.Random, nloops=2):
             mine = [(k, m) for k, m in body_setups if m.group(3) == acc]
             before = []
             k = i - 1
-            while k >= 0 and (lines[k].startswith(ind) or not lines[k].strip()):
+            while k > lo_f and (lines[k].startswith(ind) or not lines[k].strip()):
                 m = ac._SETUP_RE.match(lines[k])
                 if m and m.group(1) == ind and m.group(3) == acc:
                     before.append(m.group(2))
